@@ -5,6 +5,7 @@ import numpy as np
 
 from gbv import core
 from gbv.core import ShellSpec, basis_tokens, make_basis, rand_shell, max_excess
+from checks.common import TAIL_LADDER, tail_pair
 
 RULE = ("every ordered pair of angular momenta 0..5 is enumerated (two-shell bases, random 1-4 primitives, "
         "1-3 segments, exponents log-uniform in [0.02, cap(l)], centres in a 3 bohr box with forced "
@@ -119,6 +120,14 @@ def check(run):
             specs2 = [rand_shell(rng, rng.randint(0, 3), cs) for _ in range(rng.randint(1, 2))]
         one_case(run, specs, specs2)
     # extreme corners of the exponent range
+    # tail regime: small but not negligible Gaussian product factors (where a premature screening would bite)
+    k = 0
+    for la, lb in itertools.product(range(6), repeat=2):
+        for u in (TAIL_LADDER if run.tier == "thorough" else [TAIL_LADDER[(k + j * 3) % len(TAIL_LADDER)] for j in range(2)]):
+            s1, s2 = tail_pair(rng, la, lb, u)
+            one_case(run, [s1, s2])
+            run.count("tail regime mu*R^2=%g" % u)
+        k += 1
     for l in range(6):
         hi = core.exp_cap(l)
         s1 = ShellSpec(l, [0.0, 0.0, 0.0], [hi, 0.02], [[1.0], [0.5]], sph=(l % 2 == 0))
